@@ -11,11 +11,14 @@ void SortedPipeline::insertBetweenNearLeft(const QSet<HandlerType> &leftType,
             std::find_if(handlers().begin(), handlers().end(),
                          [&rightType](const auto &x) { return rightType.contains(x->type()); });
 
-    auto lastLeft = std::find_if(firstRight, handlers().begin(), [&leftType](const HandlerPtr &x) {
-        return leftType.contains(x->type());
-    });
+    // Position right after the last left-type handler that precedes firstRight
+    // (the beginning of the list if there is none)
+    auto pos = firstRight;
+    while (pos != handlers().begin() && !leftType.contains((*(pos - 1))->type())) {
+        --pos;
+    }
 
-    handlers().insert(lastLeft, handler);
+    handlers().insert(pos, handler);
 }
 
 QTLOGGER_DECL_SPEC
@@ -23,9 +26,11 @@ void SortedPipeline::insertBetweenNearRight(const QSet<HandlerType> &leftType,
                                             const QSet<HandlerType> &rightType,
                                             const HandlerPtr &handler)
 {
-    auto lastLeft =
-            std::find_if(handlers().end(), handlers().begin(),
-                         [&leftType](const HandlerPtr &x) { return leftType.contains(x->type()); });
+    // Position right after the last left-type handler (the beginning of the list if there is none)
+    auto lastLeft = handlers().end();
+    while (lastLeft != handlers().begin() && !leftType.contains((*(lastLeft - 1))->type())) {
+        --lastLeft;
+    }
 
     auto firstRight = std::find_if(lastLeft, handlers().end(), [&rightType](const auto &x) {
         return rightType.contains(x->type());
@@ -93,8 +98,8 @@ void SortedPipeline::setFormatter(const FormatterPtr &formatter)
 
     clearFormatters();
 
-    insertBetweenNearRight({ HandlerType::AttrHandler, HandlerType::Filter }, { HandlerType::Sink },
-                           formatter);
+    insertBetweenNearRight({ HandlerType::AttrHandler, HandlerType::Filter },
+                           { HandlerType::Sink, HandlerType::Pipeline }, formatter);
 }
 
 QTLOGGER_DECL_SPEC
@@ -106,7 +111,12 @@ void SortedPipeline::clearFormatters()
 QTLOGGER_DECL_SPEC
 void SortedPipeline::appendSink(const SinkPtr &sink)
 {
-    append(sink);
+    if (sink.isNull())
+        return;
+
+    insertBetweenNearLeft({ HandlerType::AttrHandler, HandlerType::Filter, HandlerType::Formatter,
+                            HandlerType::Sink },
+                          { HandlerType::Pipeline }, sink);
 }
 
 QTLOGGER_DECL_SPEC
